@@ -125,7 +125,7 @@ def c04_history(e1: int, p1: int, g1: int, e2: int, p2: int, h1: int, h2: int, s
         return rt.skip()
     if S.get('hook') == 'after' and h1 != 0:
         return rt.skip()
-    if h2 != 0 and S.get('beh', 0) == 2 and rt.finding_listed('c04.after_spawn_veto_leaks_stubborn_worker'):
+    if h2 != 0 and S.get('beh', 0) != 0 and rt.finding_listed('c04.after_spawn_veto_leaks_stubborn_worker'):
         return rt.skip()            # listed known finding (see known_findings.jsonl); any other violation is still reported
     with World() as w:
         k = w.kernel
@@ -157,12 +157,25 @@ def c04_history(e1: int, p1: int, g1: int, e2: int, p2: int, h1: int, h2: int, s
                 sc.gap(3)
                 sc.wname = 'a'
                 sc.apply(EVENTS[e2], p2)
+            w.quiesce()
+            if w.clock.tripped:
+                return rt.skip()
+            # first quiescent point, before any periodic check: every LIVE child must already be tracked
+            w.run_for(0.002)            # (a SIGKILLed process needs its moment to die)
+            tracked = set()
+            for wx in w.arbiter.watchers:
+                tracked |= set(wx.processes)
+            early_ok = True
+            for rec in k.spawn_log:
+                if k.procs[rec['pid']].state == 'alive' and rec['pid'] not in tracked:
+                    rt.note('at the first quiescent point pid %r (%s) is alive but tracked by no watcher', rec['pid'], rec['tag'])
+                    early_ok = False
             sc.settle(checks=1)
             k.injections = [i for i in k.injections if i.get('done')]
             sc.settle(checks=2)
             if w.clock.tripped:
                 return rt.skip()
-            return rt.verdict(accounting_ok(w, names))
+            return rt.verdict(accounting_ok(w, names) and early_ok)
         except (scen.Diverged, scen.BlockedLoop):
             return rt.skip()
 
